@@ -571,3 +571,68 @@ def return_conversion(V):
     V.check(got[0] == want[0] and (got[0] != 'ok' or (got[1] == want[1] and type(got[1]) is type(want[1]))), 'return:conversion',
             lambda: 'r(%r) -> %s: returned %r, converting the value gives %r' % (v, name, got, want))
     V.cover('accept' if got[0] == 'ok' else 'reject')
+
+
+# ---------------------------------------------------------------- every spelling of a generator's return annotation
+from typing import AsyncIterable, AsyncIterator, Iterable, Iterator  # noqa: E402
+
+
+def _mk_gen(ann, eager):
+    @utype.parse(eager=eager)
+    def g(items) -> ann:
+        for it in items:
+            yield it
+    return g
+
+
+def _mk_agen(ann, eager):
+    @utype.parse(eager=eager)
+    async def ag(items) -> ann:
+        for it in items:
+            yield it
+    return ag
+
+
+GEN_ANN = {'Iterable[int]': Iterable[int], 'Iterator[int]': Iterator[int], 'Generator[int,None,None]': Generator[int, None, None]}
+AGEN_ANN = {'AsyncIterable[int]': AsyncIterable[int], 'AsyncIterator[int]': AsyncIterator[int], 'AsyncGenerator[int,None]': AsyncGenerator[int, None]}
+GENS = {(k, e): _mk_gen(v, e) for k, v in GEN_ANN.items() for e in (False, True)}
+AGENS = {(k, e): _mk_agen(v, e) for k, v in AGEN_ANN.items() for e in (False, True)}
+
+
+@ob('generator-annotations', marks=['accept', 'reject'], budget=(60, 200),
+    bounds='generator functions annotated Iterable[int] / Iterator[int] / Generator[int, None, None] and async ones annotated '
+           'AsyncIterable / AsyncIterator / AsyncGenerator, lazy and eager; they yield <= 2 items picked from "5" | 3 | "x": every yielded '
+           'value reaches the caller converted to int, an unconvertible one raises ParseError at that position')
+def generator_annotations(V):
+    is_async = V.bool('async')
+    name = V.pick('annotation', sorted(AGEN_ANN if is_async else GEN_ANN))
+    eager = V.bool('eager')
+    items = [V.pick('i%d' % i, ['5', 3, 'x']) for i in range(V.pick('n', [1, 2]))]
+    want = []
+    for it in items:
+        if it == 'x':
+            want.append('error')
+            break
+        want.append(5 if it == '5' else it)
+    got = []
+    try:
+        if is_async:
+            ag = AGENS[(name, eager)](items)
+            while True:
+                co = ag.__anext__()
+                try:
+                    co.send(None)
+                except StopIteration as e:
+                    got.append(e.value)
+                except StopAsyncIteration:
+                    break
+                else:
+                    raise RuntimeError('async generator suspended')
+        else:
+            for v in GENS[(name, eager)](items):
+                got.append(v)
+    except exc.ParseError:
+        got.append('error')
+    V.check(got == want and all(type(a) is type(b) for a, b in zip(got, want)), 'generator:annotation-ignored',
+            lambda: '%s%s generator annotated %s yielding %r: caller received %r, expected %r' % ('eager ' if eager else '', 'async' if is_async else 'sync', name, items, got, want))
+    V.cover('reject' if 'error' in want else 'accept')
